@@ -130,6 +130,14 @@ theorem no_requested_field_is_lost_by_planning {env : Pl.Env} {fuel : Nat} {oper
     ∀ x ∈ Pl.leafPathsL sels, ∃ s ∈ steps, ∃ q ∈ Pl.leafPathsL s.sel, x = s.ip ++ q :=
   Pl.planOperation_covers h hns
 
+/-- **every follow-up step is inserted below the step it hangs off** (whole planner model): the insertion point of a
+    dependent step extends its parent's — which is what lets the executor search the parent's own reply for the rest
+    of the path. -/
+theorem follow_ups_are_inserted_below_their_parents {env : Pl.Env} {fuel : Nat} {operation : String} {sels : List Pl.Sel}
+    {steps : List Pl.Step} (h : Pl.planOperation env fuel operation sels = .ok steps) :
+    ∀ t ∈ steps, ∀ q, t.parent = some q → ∃ s ∈ steps, s.id = q ∧ ∃ rest, t.ip = s.ip ++ rest :=
+  Pl.planOperation_ip_below h
+
 /-- non-vacuity: `{ me { firstName ... { lastName } } }` with `lastName` elsewhere: the path me/lastName is asked
     by the step at insertion point [me] -/
 example :
